@@ -181,7 +181,10 @@ var ruleMotifs = []struct {
 	{[]string{"write"}, []string{"wal"}, false, 10},
 	{[]string{"sync"}, []string{"wal"}, false, 8},
 	{[]string{"create"}, []string{"wal"}, false, 4},
-	{[]string{"write", "sync"}, []string{"manifest"}, false, 8},
+	{[]string{"write"}, []string{"manifest"}, false, 5},
+	{[]string{"sync"}, []string{"manifest"}, false, 6},
+	{[]string{"read", "open"}, []string{"blob"}, false, 3},
+	{[]string{"write", "sync", "create"}, []string{"blob"}, false, 3},
 	{[]string{"dirsync"}, nil, false, 5},
 	{[]string{"meta"}, nil, false, 6},
 	{[]string{"read"}, []string{"wal"}, true, 6},
@@ -258,7 +261,17 @@ func genPlan(t *rapid.T) Plan {
 	}
 	var rules []ruleInfo
 	for i := 0; i < nr; i++ {
-		r, restart := g.rule(fmt.Sprintf("r%d", i), n, offAt, setup)
+		l := fmt.Sprintf("r%d", i)
+		r, restart := g.rule(l, n, offAt, setup)
+		if len(r.Classes) == 1 && r.Classes[0] == "blob" && !p.Opt.ValSep {
+			// no blob files without value separation: aim at the tables instead
+			r.Classes = []string{"sst"}
+		}
+		if len(r.Classes) == 1 && r.Classes[0] == "manifest" && contains(r.Kinds, "sync") && rapid.Bool().Draw(t, l+"nowal") {
+			// Without a WAL the MANIFEST is the only thing that makes a flush durable
+			// (with a WAL, rotating it at the flush has already synced every commit).
+			p.Opt.DisableWAL = true
+		}
 		rules = append(rules, ruleInfo{r, restart})
 		p.Rules = append(p.Rules, r)
 	}
